@@ -16,6 +16,9 @@ use crate::Case;
 struct VConnect {
     server: Arc<ServerState>,
     finished: Arc<Mutex<HashMap<usize, Arc<AtomicBool>>>>,
+    /// the task handed to the pool goes on living after the connection has ended (a supervisor that
+    /// has more to do than drive the connection): legal for a custom `Connect`
+    linger: bool,
 }
 
 impl Connect for VConnect {
@@ -26,6 +29,7 @@ impl Connect for VConnect {
         let server = self.server.clone();
         let pg = pg_config.clone();
         let fin = self.finished.clone();
+        let linger = self.linger;
         Box::pin(async move {
             let (a, b) = tokio::io::duplex(1 << 16);
             let (k, st) = server.new_conn();
@@ -36,6 +40,9 @@ impl Connect for VConnect {
             let h = tokio::spawn(async move {
                 let _ = connection.await;
                 flag.store(true, Ordering::SeqCst);
+                if linger {
+                    std::future::pending::<()>().await;
+                }
             });
             Ok((client, h))
         })
@@ -91,7 +98,8 @@ pub fn history(seed: u64, idx: u64) -> Case {
         RecyclingMethod::Custom(s) => Some(s.clone()),
     };
     let n_ops = rng.range(5, 40) as usize;
-    let config_desc = format!("max_size={} method={:?}", max_size, method);
+    let linger = rng.chance(1, 3);
+    let config_desc = format!("max_size={} method={:?} connection_task_lingers={}", max_size, method, linger);
     let rt = tokio::runtime::Builder::new_current_thread().enable_all().build().expect("rt");
     let mut viol: Vec<Violation> = Vec::new();
     let mut log: Vec<String> = Vec::new();
@@ -102,7 +110,7 @@ pub fn history(seed: u64, idx: u64) -> Case {
         let finished: Arc<Mutex<HashMap<usize, Arc<AtomicBool>>>> = Arc::new(Mutex::new(HashMap::new()));
         let mut pgc = tokio_postgres::Config::new();
         let _ = pgc.user("u").dbname("d");
-        let mgr = Manager::from_connect(pgc, VConnect { server: server.clone(), finished: finished.clone() }, ManagerConfig { recycling_method: method.clone() });
+        let mgr = Manager::from_connect(pgc, VConnect { server: server.clone(), finished: finished.clone(), linger }, ManagerConfig { recycling_method: method.clone() });
         let pool: Pool = Pool::builder(mgr).max_size(max_size).build().expect("build");
         let mut held: Vec<(deadpool_postgres::Client, usize)> = Vec::new();
         let mut taken: Vec<(deadpool_postgres::ClientWrapper, usize)> = Vec::new();
